@@ -356,6 +356,7 @@ func c04E2E(r *vlib.Run) {
 			cmd.Env, cmd.Dir = []string{"HOME=" + home}, home
 		}
 		nLines := 20 + crng.Intn(200)
+		var writerDone time.Time
 		var expected []string
 		var wg sync.WaitGroup
 		wg.Add(1)
@@ -406,8 +407,10 @@ func c04E2E(r *vlib.Run) {
 				text = text[c:]
 				time.Sleep(time.Duration(20+crng.Intn(30)) * time.Millisecond)
 			}
+			writerDone = time.Now()
 		}()
 		res := vlib.RunCmd(cmd)
+		exitAt := time.Now()
 		wg.Wait()
 		r.Eval(fmt.Sprintf("e2e|%v|%d", ssh, nLines))
 		r.Count("e2e_follows", 1)
@@ -444,7 +447,9 @@ func c04E2E(r *vlib.Run) {
 				bad = fmt.Sprintf("delivered #%d is %q, appended #%d is %q", k, got[k], k, expected[k])
 			}
 		}
-		if bad == "" && len(got) < len(expected)-1 {
+		// (on a loaded machine the client may start late and end while the writer
+		// is still at work: completeness only if the writer was done 2 s earlier)
+		if bad == "" && len(got) < len(expected)-1 && !writerDone.IsZero() && writerDone.Before(exitAt.Add(-2*time.Second)) {
 			bad = fmt.Sprintf("only %d of %d appended lines delivered", len(got), len(expected))
 		}
 		r.Count("e2e_lines_checked", len(got))
@@ -584,6 +589,7 @@ func c04Housekeeping(r *vlib.Run) {
 			Env:     []string{"HOME=" + home, fmt.Sprintf("VERIF_POINTS=fs.eof=sleep(%d)", delay)},
 			OnStart: func(p int) { pmu.Lock(); pid = p; pmu.Unlock() }}
 		var expected []string
+		var appendedAt []time.Time
 		var wg sync.WaitGroup
 		wg.Add(1)
 		positioned := false
@@ -610,11 +616,20 @@ func c04Housekeeping(r *vlib.Run) {
 				l := fmt.Sprintf("hk%06d-%d busy writer line", k, i)
 				expected = append(expected, l)
 				fd.WriteString(l + "\n")
+				appendedAt = append(appendedAt, time.Now())
 				time.Sleep(3 * time.Millisecond)
 			}
 		}()
 		res := vlib.RunCmd(cmd)
+		exitAt := time.Now()
 		wg.Wait()
+		// completeness is only required of lines appended at least 3 s before the
+		// follow ended (on a loaded machine the client may start late and end
+		// while the writer is still at work)
+		must := 0
+		for must < len(appendedAt) && appendedAt[must].Before(exitAt.Add(-3*time.Second)) {
+			must++
+		}
 		r.Eval(fmt.Sprintf("housekeeping|%d|%d", i, delay))
 		r.Count("housekeeping_follows", 1)
 		if res.TimedOut || !positioned {
@@ -647,8 +662,8 @@ func c04Housekeeping(r *vlib.Run) {
 				bad = fmt.Sprintf("delivered #%d is %q, appended #%d is %q", k, got[k], k, expected[k])
 			}
 		}
-		if bad == "" && len(got) < len(expected) {
-			bad = fmt.Sprintf("only %d of %d appended lines delivered (the writer stopped 2.5 s before the follow ended)", len(got), len(expected))
+		if bad == "" && len(got) < must {
+			bad = fmt.Sprintf("only %d lines delivered, %d had been appended 3 s or more before the follow ended (%d in all)", len(got), must, len(expected))
 		}
 		r.Count("housekeeping_lines_checked", len(got))
 		if bad != "" || res.Panicked() {
